@@ -142,6 +142,9 @@ def check_class_objects(rep):
                 continue
             if back != k:
                 rep.fail(f"n={n}:classobj:{k}", case, f"LCClass{n}({k}).id() = {back}")
+            if a.shape != (n, n):
+                rep.fail(f"n={n}:representative-shape:{k}", case, f"LCClass{n}({k}).get_graph() is a graph on {a.shape[0]} vertices, not a graph state of a {n}-qubit class")
+                continue
             edges = [(i, j) for i in range(n) for j in range(i + 1, n) if a[i, j] & 1]
             out[(n, k)] = tab[lc.gid_from_edges(n, edges)]
             rep.evaluations += 1
